@@ -208,6 +208,7 @@ PROPS = {
         ],
         "level_text": "Lean theorems C05_tcp / C05_udp / C05_icmp / C05_arp: for every well-formed request, all 2^9 TCP flag sets, every TTL / IP flags / protocol / type / code, every payload byte string up to the IPv4 maximum (induction-free RFC 1071 argument over the byte list, odd lengths included), every value of the random draws and both link modes, the frame read back by an independent RFC 791/793/768/792/826 offset reader carries exactly the requested MACs, addresses, port, flags, TTL, IP flags, type/code and payload; IPv4 header checksum and TCP/UDP (pseudo-header) / ICMP checksums verify; total length, IHL, data offset, UDP length, Ethernet padding are consistent, and --iplen / --ipproto appear verbatim with every other field unchanged (UDP length included, D14 fixed); IP id in 1..65535, source port in 32768..60999 with the draw ranges regenerated from the source (C05_draws). C05_vpn_same_datagram*: the VPN frame is the Ethernet frame minus header and padding. C05_refused_*: non-IPv4 addresses / bad MACs give an error, never a frame. CLI side: C05_cli_tcp_flags / C05_tcp_cli (the flag set the command's filler gets from the accepted --flags names, through the regenerated option table, is the set the names denote and is what the header carries), C05_subcommand_flags (tcp syn/fin/null/xmas give SYN / FIN / none / FIN+PSH+URG, over the option lists regenerated from command/tcp_*.go), C05_cli_ipflags (parsed --ipflags fit the field) composed with C18's parser theorems. Tied to the code by running the real Fill of all four fillers (built through the commands' own option wiring) into a dirty buffer and comparing every byte with the model, exhaustively over 2^9 flag sets x 2 link modes, a corner grid of payload lengths x option extremes, the IPv4 maximum payload, and a search of millions of frames of one seeded random stream for ids/ports at or beyond the ends of their ranges; the parse component drives flag names through the real filler (ptcpflags).",
         "level_note": "Trusted: Lean kernel; the gopacket serializer model is validated differentially on every run (byte-exact), not proved; sxfacts for the draw ranges and the flag table.",
+    },
     "C11": {
         "modules": ["SxVerif.Props.C11"],
         "components": ["arpcache"],
@@ -235,6 +236,7 @@ PROPS = {
                         "MarshalJSON does not fail (no NaN/Inf or cyclic values: unreachable from a JSON decoder); the channel is read by one logger goroutine"],
         "level_text": "Lean theorems C14_string_easyjson / C14_string_encodingjson (the independent JSON reader undoes both string escapers on every byte string), C14_integer, C14_value (every value tree of any depth), C14_arp/_tcp/_icmp/_socks/_elastic/_docker (the line of each result type reads back as exactly the documented keys and field values, for all field strings and all trees), C14_any_bytes_partial (invalid UTF-8: still one complete object, value read back sanitised), C14_single_line, C14_writes_in_order / C14_output_lines (output = the lines in channel order, one write each), C14_uniq_* (de-duplication = first occurrences by ID: every ID once, at its first sighting, order kept) and C14_one_write_per_result over facts regenerated from command/log. Tied to the code by random hostile results of all 7 kinds through the real MarshalJSON and the real Logger/UniqueLogger (byte-for-byte and write-for-write), with the Spec reader evaluated on the real bytes.",
         "level_note": "Trusted: Lean kernel; the escaper / strconv models and the harness-side reflection walk are validated differentially on every run, not proved; invalid UTF-8 in flat fields is covered by the weaker _partial statement (sanitised value).",
+    },
     "C09": {
         "modules": ["SxVerif.Props.C09"],
         "components": ["socks"],
@@ -251,6 +253,7 @@ PROPS = {
         ],
         "level_text": "Lean theorems over ALL server scripts (dial outcome x write outcome x any finite sequence of read events: any bytes in any chunking with any delays, EOF, reset, silence x peer acknowledging our FIN or not x any cancellation instant) and all timeout settings: C09_decision (record for the probed target iff connected, greeting sent and the first two reply bytes, as bytes with arrival instants, are 05 00), C09_record, C09_otherwise (nil,nil iff two other bytes were seen; error iff the reply was not seen), C09_greeting / C09_method_request (the request is 05 01 00; WriteTo for every method list), C09_reads_le_two, C09_time_bound (elapsed <= connect timeout + 3 data timeouts), C09_cancel_prompt (a cancelled probe is over by the cancellation instant, no deadline hypothesis), C09_cancel_late, C09_blocking_close_breaks_bound (why SetLinger must not be positive). Constants incl. the SetLinger argument are regenerated from the source each run. Tied to the code by the real Scanner.Scan against scripted loopback TCP servers (all first/second reply bytes, thorough: all 65536 replies; splits, drip feed, late bytes, extra bytes, floods, close/reset/stall at every step, full accept queue, cancellation before/during dial and during either read, peer turning unreachable in a private network namespace) with outcome, greeting seen by the server and wall time compared with the model, and by the real socksConn/WriteTo/ReadFrom over a recording in-memory conn (call-by-call trace).",
         "level_note": "Trusted: Lean kernel; the net/kernel model is validated differentially, not proved; the time theorems are theorems of the timed model under h_deadline (wall-clock behaviour is measured with 250 ms slack, not proved).",
+    },
     "C03": {
         "modules": ["SxVerif.Props.C03"],
         "components": ["bpf", "proc"],
@@ -268,6 +271,7 @@ PROPS = {
         ],
         "level_text": "Lean theorems C03_exact / C03_iff / C03_property_form / C03_history / C03_chunks / C03_filters_compile over the wiring table regenerated from command/*.go on every run (wiring_compatible, wiring_complete, engine_facts are decided by the kernel on the regenerated data): for every packet-scan command row, with and without --vpn, every valid range (any subnet or none, any list of port ranges, hence every chunk of startPortScanEngine), every prior contents of the processor's reused decoder structs and every byte string on the wire, the installed BPF filter followed by the processor puts on the result channel exactly Spec.Reply.replyRecord of that frame: the record made of the frame's own source address, source port and flag letters / ICMP type, code, TTL / sender MAC if the frame is a well-formed unfragmented frame of the scanned protocol (flat offset-defined header chain of Spec/Frame.lean) whose source lies in the target subnet, whose source port lies in one of the ranges being scanned, whose TCP byte 13 is exactly 0x12 for the SYN scan and whose ICMP type is not 8 -- and nothing for any other byte string; at most one record per frame; for whole captures frame by frame independently of history. Proof: both directions of decoder <-> flat header chain (C06 gives record => chain; the converse forward-decoding lemmas are new), filter denotation collapsed to byte conditions on frames with a chain, netmask arithmetic (a AND mask = net <=> equal prefixes). Tied to the code by the translator (wiring) and by component bpf: real filter strings (render, byte for byte), real libpcap + BPF VM and real processors on frames aimed at the range, one-field-off variants, truncations at every header boundary, IPv6 / VLAN / fragments and all malformed families, with the Spec verdict evaluated on the observed outcome.",
         "level_note": "Trusted: Lean kernel; sxfacts reads the wiring faithfully (cross-checked: the harness runs the rows it reports); libpcap/BPF and gopacket semantics are models validated differentially on every run (quick: 450 ranges x 8-14 frames + 300 render cases + 1.5k processor histories), not proved; kernel delivery and snap-length truncation are assumptions.",
+    },
     "C15": {
         "modules": ["SxVerif.Props.C15"],
         "components": ["limiter"],
@@ -286,6 +290,7 @@ PROPS = {
         ],
         "level_text": "Lean theorems C15_rate (for all N >= 1, W >= 0, ALL clock sequences after Go's zero time, monotone or not, all i and k >= 1: release(i+k-1) - release(i) >= (k-1-10)*floor(W/N); potential-function proof, no bound on lengths), C15_rate_slack (any burst allowance), C15_any_set (order-free: any k distinct probes span >= (k-1-10)*floor(W/N)), C15_held (never released before asking; Sleep argument = release - now), C15_wire (wire times with tolerance eps), C15_sequential (single sender, no eps, (k-2-10)), C15_spec_verdict (the executable Spec predicate is true of every finite model run), C15_new (rate 0 panics, never reached), C15_charged_once (for every call sequence on a wrapper each sent item is charged exactly once before it is handed on, reads never), and over facts regenerated from the source on every run C15_wrapper_shape / C15_wiring / C15_plumbing (method bodies are exactly Take-then-delegate, ReadPacketData not overridden, limiter installed iff rateCount > 0 with ratelimit.New(rateCount, Per(rateWindow)) and no slack option at both sites, every packet command passes rateCount/rateWindow on, library version v0.2.0). Tied to the code by running the REAL ratelimit limiter under scripted clocks (exact equality of release times and Sleep arguments with the model, incl. readings around the zero time, the andres-erbsen mock clock as a sequential sender and concurrent Takes with linearisation check), the REAL wrappers around a counting limiter and recording delegate, and the REAL newScanEngine wiring in real time (sequential bound on Scan start times).",
         "level_note": "Trusted: Lean kernel (+ Mathlib for C15_any_set); the limiter model is validated differentially on every run, not proved from the Go source; Sleep semantics, dispatch latency eps and int64 range are runtime assumptions; the packet wiring site (startPacketScanEngine needs an AF_PACKET socket) is tied by generated facts only, the application wiring site also dynamically; the order-free clause of the harness verdict (release times sorted) is justified by C15_any_set on paper, not by a list-level theorem. Observed library quirk (harmless direction): after a failed CAS iteration that wanted to sleep, Take may pass the stale interval to Sleep although the final iteration needs none (sleeps longer than needed, never shorter).",
+    },
     "C10": {
         "modules": ["SxVerif.Props.C10"],
         "components": ["httpprobe"],
